@@ -6,7 +6,8 @@ From V.c19 Require Import C19Model C19Spec C19InvProofs C19TrackProofs C19DescPr
 From V.c19 Require Import C19RecModel C19RecProofs C19RecLinkProofs.
 From V.c19 Require Import C19BoxCodec C19BoxModel.
 From V.c19 Require Import C19TreeModel C19TreeProofs C19TreeScopeProofs C19LeafProofs C19PrintParseProofs C19RoundtripProofs C19ArgsProofs.
-From V.c19 Require Import C19FragModel C19FragProofs.
+From V.c19 Require Import C19FragModel C19FragProofs C19DimsProofs.
+From V.c15 Require C15Model C15Spec C15HevcModel C15HevcSpec C15Examples C15HevcExamples.
 From V.c05 Require C05Model C05FragModel C05HistProofs C05GhostProofs C05ReadProofs C05RoundProofs C05SingleProofs.
 
 
@@ -118,6 +119,36 @@ Theorem C19_descriptor_hevc :
       /\ core t' = core t.
 Proof. exact set_hevc_ok. Qed.
 Print Assumptions C19_descriptor_hevc.
+
+(* The dimensions, stated without reference to what a parser answers: with C15's models of avc.ParseSPSNALUnit /
+   hevc.ParseSPSNALUnit + ImageSize as the parsers (c15_avc_parser, c15_hevc_parser: coq/c15, read-only) and C15's SPS
+   theorems, for EVERY valid field assignment v of the SPS syntax (all profiles, chroma formats, field coding, cropping,
+   any VUI incl. any sample aspect ratio) the entry built from the NAL unit of v has exactly the CROPPED picture size of
+   v -- C15Spec.display_width/height: PicWidthInMbs*16 - CropUnitX*(left+right), (2-frame_mbs_only)*PicHeightInMapUnits*16
+   - CropUnitY*(top+bottom), which do not look at the VUI -- in its 16-bit fields, and tkhd holds it in 16.16 fixed point.
+   A SetAVCDescriptor scaling the width by the sample aspect ratio falsifies this on every SPS with a non-square SAR. *)
+Theorem C19_descriptor_avc_dims :
+  forall v t name rest ppss incl t',
+    C15Spec.sps_valid v = true ->
+    set_avc c15_avc_parser t name (C15Spec.nalu_sps v :: rest) ppss incl = (OOk, t') ->
+    exists e, sd_entries t' = sd_entries t ++ [e] /\ se_name e = name
+      /\ se_a e = C15Spec.display_width v mod 65536 /\ se_b e = C15Spec.display_height v mod 65536
+      /\ tk_width t' = (C15Spec.display_width v * 65536) mod 4294967296
+      /\ tk_height t' = (C15Spec.display_height v * 65536) mod 4294967296.
+Proof. exact avc_dims_exact. Qed.
+Print Assumptions C19_descriptor_avc_dims.
+
+(* HEVC: pic_width/height_in_luma_samples minus SubWidthC/SubHeightC times the conformance-window offsets *)
+Theorem C19_descriptor_hevc_dims :
+  forall v t name vpss rest ppss seis incl t',
+    C15HevcSpec.hsps_valid v = true ->
+    set_hevc c15_hevc_parser t name vpss (C15HevcSpec.hnalu_sps v :: rest) ppss seis incl = (OOk, t') ->
+    exists e, sd_entries t' = sd_entries t ++ [e] /\ se_name e = name
+      /\ se_a e = C15HevcSpec.h_display_width v mod 65536 /\ se_b e = C15HevcSpec.h_display_height v mod 65536
+      /\ tk_width t' = (C15HevcSpec.h_display_width v * 65536) mod 4294967296
+      /\ tk_height t' = (C15HevcSpec.h_display_height v * 65536) mod 4294967296.
+Proof. exact hevc_dims_exact. Qed.
+Print Assumptions C19_descriptor_hevc_dims.
 
 (* SetAACDescriptor: the AudioSpecificConfig in esds reads back (independent bit reader) as the supplied object
    type and frequency, 2 channels (1 for HE-AAC v2), extension frequency 2f and base type AAC-LC for HE-AAC:
@@ -699,4 +730,28 @@ Proof.
   split; [split; [cbn; lia|reflexivity]|].
   eexists; eexists; eexists. split; [vm_compute; reflexivity|]. split; [vm_compute; reflexivity|].
   split; [vm_compute; reflexivity|]. split; [vm_compute; reflexivity|]. vm_compute. reflexivity.
+Qed.
+
+(* the hypotheses of C19_descriptor_avc_dims / _hevc_dims are satisfiable, with everything the cropped size must NOT
+   depend on or must depend on: C15's ex_sps is High 4:2:2, field coded (frame_mbs_only_flag 0), cropped (1,2,3,1), with a
+   VUI whose sample aspect ratio is 40:33 (aspect_ratio_idc 255): 120x34 map units -> 1914 x 1080, the same as without VUI
+   (and NOT 1914*40/33 = 2320); ex_hsps is 1920x1088 4:2:0 with a conformance window and SAR 4:3 -> 1920 x 1080 *)
+Example C19_descriptor_dims_hyp :
+  C15Spec.sps_valid C15Examples.ex_sps = true
+  /\ (C15Spec.sar_width (C15Spec.vui_params C15Examples.ex_sps), C15Spec.sar_height (C15Spec.vui_params C15Examples.ex_sps)) = (40, 33)
+  /\ C15Spec.frame_mbs_only_flag C15Examples.ex_sps = false /\ C15Spec.frame_cropping_flag C15Examples.ex_sps = true
+  /\ (C15Spec.display_width C15Examples.ex_sps, C15Spec.display_height C15Examples.ex_sps) = (1914, 1080)
+  /\ (C15Spec.display_width C15Examples.ex_sps_novui, C15Spec.display_height C15Examples.ex_sps_novui) = (1914, 1080)
+  /\ (exists t', set_avc c15_avc_parser (some_trak 1) (BS "avc1") [C15Spec.nalu_sps C15Examples.ex_sps] [[104; 206; 56; 128]] true = (OOk, t')
+                 /\ map (fun e => (se_a e, se_b e)) (sd_entries t') = [(1914, 1080)] /\ tk_width t' = 125435904)
+  /\ C15HevcSpec.hsps_valid C15HevcExamples.ex_hsps = true
+  /\ (C15HevcSpec.h_display_width C15HevcExamples.ex_hsps, C15HevcSpec.h_display_height C15HevcExamples.ex_hsps) = (1920, 1080)
+  /\ (exists t', set_hevc c15_hevc_parser (some_trak 1) (BS "hev1") [] [C15HevcSpec.hnalu_sps C15HevcExamples.ex_hsps] [] [] true = (OOk, t')
+                 /\ map (fun e => (se_a e, se_b e)) (sd_entries t') = [(1920, 1080)]).
+Proof.
+  split; [vm_compute; reflexivity|]. split; [reflexivity|]. split; [reflexivity|]. split; [reflexivity|].
+  split; [vm_compute; reflexivity|]. split; [vm_compute; reflexivity|].
+  split; [eexists; split; [vm_compute; reflexivity|]; split; vm_compute; reflexivity|].
+  split; [vm_compute; reflexivity|]. split; [vm_compute; reflexivity|].
+  eexists; split; [vm_compute; reflexivity|]; vm_compute; reflexivity.
 Qed.
